@@ -422,6 +422,9 @@ func (an *Analysis) binAtom(x *ssa.BinOp, depth int) (*Atom, bool) {
 	}
 	rc, ok := r.(*ssa.Const)
 	if !ok {
+		if a, neg := an.ageLifeAtom(x); a != nil {
+			return a, neg
+		}
 		return an.exceedsAtom(x)
 	}
 	// emptiness of a slice/map/string: len(x) == 0 (or != 0, > 0, < 1, >= 1)
@@ -525,6 +528,47 @@ func (an *Analysis) binAtom(x *ssa.BinOp, depth int) (*Atom, bool) {
 				}
 			}
 		}
+	}
+	return nil, false
+}
+
+// ageLifeAtom: a comparison of the freshness record's age with its lifetime (`fr.Age.Value >= fr.UsefulLife`): the atom
+// "fr.age>=life" (the response is past its lifetime whatever the staleness flag says, e.g. after max-stale relaxed it).
+func (an *Analysis) ageLifeAtom(x *ssa.BinOp) (*Atom, bool) {
+	if an.A.FreshT == nil {
+		return nil, false
+	}
+	kind := func(v ssa.Value) string {
+		u, ok := an.canon(v).(*ssa.UnOp)
+		if !ok {
+			return ""
+		}
+		fa, ok := u.X.(*ssa.FieldAddr)
+		if !ok {
+			return ""
+		}
+		if isPtrToNamed(fa.X.Type(), an.A.FreshT) && fa.Field == an.A.FreshLife {
+			return "life"
+		}
+		if an.A.AgeT != nil && isPtrToNamed(fa.X.Type(), an.A.AgeT) && typeIs(u.Type(), "time", "Duration") {
+			return "age"
+		}
+		return ""
+	}
+	l, r := kind(x.X), kind(x.Y)
+	op := x.Op
+	if l == "life" && r == "age" {
+		l, r = r, l
+		op = swapTok(op)
+	}
+	if l != "age" || r != "life" {
+		return nil, false
+	}
+	switch op {
+	case token.GEQ:
+		return &Atom{Key: "fr.age>=life"}, false
+	case token.LSS:
+		return &Atom{Key: "fr.age>=life"}, true
 	}
 	return nil, false
 }
